@@ -387,7 +387,13 @@ func ReadFromTTML(i io.Reader) (o *Subtitles, err error) {
 	}
 
 	// Loop through subtitles
-	for _, ts := range ttml.Subtitles {
+	for idx, ts := range ttml.Subtitles {
+		// Begin and end are mandatory
+		if ts.Begin == nil || ts.End == nil {
+			err = fmt.Errorf("astisub: subtitle #%d has no begin or no end", idx+1)
+			return
+		}
+
 		// Init item
 		ts.Begin.framerate = ttml.Framerate
 		ts.Begin.tickrate = ttml.Tickrate
